@@ -10,6 +10,7 @@ func init() {
 			for _, b := range base {
 				// b.Args = script, spec, meta, flags
 				for _, mode := range []string{"purity", "determinism", "flags", "reentrancy"} {
+
 					c := Case{ID: "C11 " + mode + " " + b.ID[4:], Pkg: "", Fn: "ZZC11", Args: []string{mode, b.Args[0], b.Args[1], b.Args[2], b.Args[3]}, Tag: mode}
 					cases = append(cases, c)
 				}
@@ -28,8 +29,8 @@ func init() {
 			return cases
 		},
 		Bounds: stdBounds(
-			map[string]interface{}{"templates": "the C10 templates + 3 multi-statement scripts, x 4 modes", "map_iteration_orders": "every permutation of every map ranged over during the second run (maps <= 4 entries)", "concurrency": "two calls executed one after the other under the write-confinement monitor (no interleaving is modelled)"},
-			map[string]interface{}{"templates": "the C10 thorough templates + 3 multi-statement scripts, x 4 modes", "map_iteration_orders": "all permutations", "concurrency": "by write confinement"}),
+			map[string]interface{}{"templates": "the C10 templates + 3 multi-statement scripts, x 4 modes", "map_iteration_orders": "per path one ranged map (each in turn) takes every order (maps <= 3 entries; identity, reversal, rotation for larger ones), the others insertion order", "concurrency": "two calls executed one after the other under the write-confinement monitor (no interleaving is modelled)"},
+			map[string]interface{}{"templates": "the C10 thorough templates + 3 multi-statement scripts, x 4 modes", "map_iteration_orders": "per path up to two ranged maps take every order, the others insertion order", "concurrency": "by write confinement"}),
 		Assumptions: append([]string{
 			"re-entrancy is decided by reduction: Run writes only objects it allocated itself (no store into the parsed program, the variables map, the flag map or any package-level variable); calls with disjoint write sets cannot interfere under any interleaving",
 			"goroutine scheduling and the Go memory model are not modelled; races inside math/big, regexp and the ANTLR runtime are outside",
